@@ -29,3 +29,8 @@ def run(ctx):
         drive(ctx, "xml", n, lambda i: [1 + i % 12], fixture_precisions=(4, 9))
     else:
         drive(ctx, "xml", n, lambda i: [1 + i % 12, 1 + (i * 5 + 3) % 12, 12], fixture_precisions=tuple(range(1, 13)))
+
+    # ambient workload (thorough tier): the repository's own tests with the contracts installed
+    if not ctx.quick and ctx.shard == 0 and ctx.only is None:
+        from vf.ambient import run_ambient
+        run_ambient(ctx, ['roundtrip'])
